@@ -3,11 +3,7 @@
 package props
 
 import (
-	"encoding/json"
-	"fmt"
 	"math/big"
-	"os"
-	"path/filepath"
 	"testing"
 
 	"verif/harness/hx"
@@ -16,18 +12,6 @@ import (
 
 // Native coverage-guided fuzz targets (thorough tier). The semantic oracle of the property runs inside the
 // target; a failing input is also written as a JSON replay file so that `./check <ID> --replay` can re-run it.
-
-func fuzzFail(t *testing.T, id, part string, c any, err error) {
-	raw, _ := json.Marshal(c)
-	rf := hx.ReplayFile{Property: id, Part: part, Error: err.Error(), Config: hx.RunConfig(), Case: raw}
-	data, _ := json.MarshalIndent(rf, "", " ")
-	if dir := os.Getenv("VERIF_OUT"); dir != "" {
-		_ = os.WriteFile(filepath.Join(dir, fmt.Sprintf("replay-%s-%s-fuzz.json", id, part)), data, 0o644)
-	}
-	t.Fatalf("VIOLATION property=%s: %v", id, err)
-}
-
-var fuzzRec = func() *hx.Rec { s := hx.NewRecForFuzz(); return s }()
 
 func hostile32() [][]byte {
 	var out [][]byte
